@@ -22,4 +22,17 @@ CLAIMS = {
                 'WriteData for missing/late tables (first, period, RAP on PCR PID).',
         'note': TRUST, 'technique': 'TLA+ model checking (TLC) + trace validation of real-code traces (Mon_C17)', 'ref': 'DESIGN.md 4 C17'},
 }
+CLAIMS['C01'] = {
+    'text': 'Every transition of the Mux.tla state graph plus seeded long histories (boundary payload lengths around k*184 +/- header/AF, > 65535, '
+            'five PES header classes, seven AF classes, auto/explicit PIDs, remove/re-add) are run through the real Muxer and the bytes through the '
+            'real Demuxer; Mon_C01 keeps per-PID FIFOs of successful WriteData calls and of emitted PAT/PMT (with the configuration current at '
+            'emission) and requires every delivery to equal the FIFO head (payload digest, projected PES header, first-packet AF), no error, and '
+            'empty FIFOs at end of stream.',
+    'note': TRUST, 'technique': 'TLA+ model checking (TLC) + trace validation of real-code mux->demux traces (Mon_C01)', 'ref': 'DESIGN.md 4 C01'}
+CLAIMS['C18'] = {
+    'text': 'Writer.tla models the BitsWriterBatch first-error latch over the call shapes of the code (TLC: a failing Write is always surfaced with '
+            'n <= accepted when every segment consults its latch; counterexample for an unchecked segment). Fault enumeration on the real Muxer: '
+            'one run per Write-call index x {one-shot, permanent} over histories whose last packet needs 0/1/2/3/many stuffing bytes; Mon_C18 '
+            'requires err wrapping the injected cause and n <= accepted for the call in which the fault fired. (Reader half: see evidence.)',
+    'note': TRUST, 'technique': 'TLA+ model checking (TLC) + exhaustive fault-position enumeration judged by trace validation (Mon_C18)', 'ref': 'DESIGN.md 4 C18'}
 NOT_CLAIMED = {}
